@@ -313,7 +313,12 @@ def outlier_jobs(rng, tier, names, reps=None):
             big = F(10) ** rng.choice([12, 15, 16, 17])
             val = lambda: F(float(F(rng.randint(100, 20000), 100)))
             sign = 1 if nm in ("roc", "cog") else rng.choice([1, -1])
-            pre = [val() for _ in range(rng.randint(n, 3 * n))] + [val() * big * sign] + [val() for _ in range(rng.randint(0, n))]
+            if rng.random() < 0.4:
+                # the outlier is the very FIRST value the view ever sees (wave-7 seed C03g: CTI stored its window relative to an
+                # "origin" taken from the first delivered value and never refreshed it)
+                pre = [val() * big * sign] + [val() for _ in range(rng.randint(0, 2 * n))]
+            else:
+                pre = [val() for _ in range(rng.randint(n, 3 * n))] + [val() * big * sign] + [val() for _ in range(rng.randint(0, n))]
             suffix = [val() for _ in range(K + rng.randint(1, n + 2))]
             short = [val() for _ in range(rng.randint(1, 4))]
             js.append(Relation("suffix", e, [pre + suffix, short + suffix], dict(K=K, tol=1e-6, scale=200), mode="f"))
@@ -448,6 +453,21 @@ def jobs_C07(rng, tier):
         fam, pos = gen.gen_stream(rng, 4 * n + 8, n, positive=True, families=fams)
         js.append(Relation("range", mk("drawdown", ECHO, []), [pos], dict(lo=F(0), hi=F(1), strict_hi=True, nondecreasing=True)))
         js.append(Relation("range", mk("cog", ECHO, [n]), [pos], dict(lo=-F(n - 1, 2), hi=F(n - 1, 2))))
+    # "for every finite input": the scale-free bounded views at the ends of the f64 range -- subnormals, 2^-1000, 2^600 (wave-7
+    # seed C07g: Drawdown multiplied by a cached 1/peak, which is +inf for a subnormal peak)
+    for nm, lo, hi in (("drawdown", 0, 1), ("hln", -1, 1), ("rsi", 0, 100), ("myrsi", -1, 1), ("net", -1, 1), ("lagrsi", 0, 1)):
+        for _ in range(max(2, R // 3)):
+            n = rng.randint(2, 6)
+            unit = rng.choice([F(2) ** -1074, F(2) ** -1070, F(2) ** -1040, F(2) ** -1000, F(2) ** -600, F(2) ** 600])
+            e = mk(nm, ECHO, gen.gen_params(rng, nm, 6, n=n))
+            ks = [rng.randint(1, 200) for _ in range(4 * n + 8)]
+            if nm != "drawdown":
+                ks = [k - 100 for k in ks]
+            xs = [F(k) * unit for k in ks]
+            d = dict(lo=float(lo), hi=float(hi), slack=4 * 2.3e-16 * max(abs(hi), 1), fam="extreme_unit", f64=True)
+            if nm == "drawdown":
+                d.update(nondecreasing=True)
+            js.append(Relation("range", e, [xs], d, mode="f"))
     # the bounds are claimed of every reported value, so also of the same views chained over an inner view (wave-4 seed C07d:
     # Vsct fed its own window the inner view's outputs but normalised the RAW input) — exact arithmetic
     chain_inners = lambda: rng.choice([mk("sma", ECHO, [rng.randint(2, 5)]), mk("ema", ECHO, [rng.randint(2, 4)]), mk("cum", ECHO, [rng.randint(2, 4)]),
@@ -857,6 +877,22 @@ def jobs_C13(rng, tier):
     for _ in range(scale_n(tier, 6, 30)):
         xs = [abs(x) for x in gen.stream(rng, "level", rng.choice([60, 400, 2000]), 4)]
         js.append(FpTrack(mk("wroll", ECHO, []), xs, 1e-5, max(float(max(xs) - min(xs)), 1 / 64), fam="level"))   # scale: the spread
+    js += long_level_jobs(rng, tier)
+    return js
+
+
+def long_level_jobs(rng, tier):
+    """"for streams of any length without the error growing beyond rounding noise": 12 000 (thorough: 60 000) values at a level of
+    2^33 moving by multiples of 2^-12 (spread ~2e-3, i.e. 2e-13 of the level), f64 against the exact run, scale = the spread.
+    Welford's recurrence tracks the spread to ~1e-3 of it there; an update that is skipped "because the mean did not move"
+    (wave-7 seed C13g: in floating point the mean stops moving once (x - mean)/n drops below half an ulp of the level) loses
+    most of the samples."""
+    js = []
+    for _ in range(scale_n(tier, 2, 6)):
+        L = scale_n(tier, 12000, 60000)
+        level = F(2) ** rng.choice([32, 33])
+        xs = [level + F(rng.randint(0, 7), 4096) for _ in range(L)]
+        js.append(FpTrack(mk("wroll", ECHO, []), xs, 2e-2, float(F(7, 4096)), fam="long_level", flat_from=L // 2))
     return js
 
 
@@ -969,6 +1005,21 @@ def jobs_C14(rng, tier):
         zs = [F(rng.choice([-9, -4, -3, -1, 1, 2, 3, 5, 8])) * unit for _ in range(rng.randint(6, 14))]
         if unit < 1 or op2 != "mul":
             js.append(Relation("binop", (op2, a2, b2), [zs, zs, zs], dict(op=op2, domain_ok=True), mode="f", es=[(op2, a2, b2), a2, b2]))
+        # results that overflow to +-inf or underflow to 0 / subnormals (wave-7 seed C14g: Divide replaced a non-finite quotient by
+        # the previous finite one): finite children, IEEE result, bit for bit, whatever came before
+        hu, ti = F(2) ** rng.choice([1000, 1020, 900]), F(2) ** rng.choice([-1000, -1060, -900, -200])
+        op3 = rng.choice(gen.BINOPS)
+        ca = F(rng.choice([-3, -1, 1, 5])) * hu
+        a3 = rng.choice([("const", ca), ECHO])
+        pool = {"div": [ti, ti * 3, -ti, F(2), hu], "mul": [hu, -hu, F(3), ti], "add": [hu, hu * 3, -hu, F(1)], "sub": [-hu, -hu * 3, hu, F(1)]}[op3]
+        if a3 == ECHO:
+            # both operands are the input: x op x overflows for mul / add at the huge end
+            zs3 = [F(rng.choice([-3, -1, 1, 2])) * rng.choice([hu, ti, F(1), F(2) ** 600]) for _ in range(rng.randint(6, 12))]
+            b3 = rng.choice([ECHO, ("const", rng.choice(pool))])
+        else:
+            zs3 = [F(rng.choice([-3, -1, 1, 2])) * rng.choice(pool) for _ in range(rng.randint(6, 12))]
+            b3 = ECHO
+        js.append(Relation("binop", (op3, a3, b3), [zs3, zs3, zs3], dict(op=op3, domain_ok=True), mode="f", es=[(op3, a3, b3), a3, b3]))
         # value-level correspondence on trees made of combinators and leaves only
         pe = gen.gen_pure_tree(rng, rng.randint(1, 3))
         js.append(Corr(pe, "f", xs_ops("f", ys), "f64"))
